@@ -1482,6 +1482,15 @@ func (s *Netceptor) handleRoutingUpdate(ri *routingUpdate, recvConn string) {
 
 		return
 	}
+	// connection costs are positive everywhere else (backends refuse to start with a cost <= 0); an update
+	// that claims otherwise would make the shortest-path computation run for ever on a negative cycle
+	for peer, cost := range ri.Connections {
+		if !(cost > 0) {
+			s.Logger.Warning("Ignoring routing update from %s with non-positive cost %f to %s\n", ri.NodeID, cost, peer)
+
+			return
+		}
+	}
 	s.seenUpdatesLock.Lock()
 	_, ok := s.seenUpdates[ri.UpdateID]
 	if ok {
